@@ -6,10 +6,15 @@ import (
 	"fmt"
 	"os"
 	"os/signal"
+	"runtime"
 	"strings"
 	"sync"
 	"sync/atomic"
 	"syscall"
+	"time"
+
+	"go.uber.org/zap"
+	"go.uber.org/zap/zapcore"
 
 	"go.opentelemetry.io/collector/component"
 	"go.opentelemetry.io/collector/component/componentstatus"
@@ -97,11 +102,21 @@ func (r Round) String() string {
 
 // History is one case.
 type History struct {
-	Class       string    `json:"class"`
-	PreShutdown int       `json:"pre_shutdown,omitempty"` // Shutdown() calls before Run
-	Gens        []GenPlan `json:"gens"`                   // plan of generation 1, 2, …; later generations: default plan
-	Rounds      []Round   `json:"rounds"`
-	Final       Round     `json:"final"`
+	Class       string `json:"class"`
+	PreShutdown int    `json:"pre_shutdown,omitempty"` // Shutdown() calls before Run
+	// Pollers > 0: that many goroutines log (Info/Warn, enabled: the service then logs at level info) through the
+	// logger the collector gave the provider, all the time from the first Retrieve to the provider's shutdown
+	Pollers int       `json:"pollers,omitempty"`
+	Gens    []GenPlan `json:"gens"` // plan of generation 1, 2, …; later generations: default plan
+	Rounds  []Round   `json:"rounds"`
+	Final   Round     `json:"final"`
+}
+
+func (h *History) logLevel() string {
+	if h.Pollers > 0 {
+		return "info"
+	}
+	return "error"
 }
 
 func (h *History) plan(g int) GenPlan {
@@ -115,6 +130,9 @@ func (h *History) plan(g int) GenPlan {
 func (h *History) Canon() string {
 	var b strings.Builder
 	fmt.Fprintf(&b, "pre%d", h.PreShutdown)
+	if h.Pollers > 0 {
+		fmt.Fprintf(&b, "|loggers%d", h.Pollers)
+	}
 	for i, g := range h.Gens {
 		fmt.Fprintf(&b, "|g%d:%d.%d.%s", i+1, g.NRecv, g.NExp, g.Fail)
 		for _, t := range g.Triggers {
@@ -226,6 +244,75 @@ type prov struct {
 	shutdowns             int
 	closes                int
 	retrieveAfterShutdown int
+
+	// the logger the collector hands to providers (its swappable core: the run loop replaces the core on every
+	// start and reload) and the goroutines that log through it all the time
+	logger    *zap.Logger
+	pollOn    bool
+	pollStop  atomic.Bool
+	pollWG    sync.WaitGroup
+	pollLines atomic.Int64
+}
+
+// startPollers launches n goroutines that log at an enabled level, with fields, in a tight loop through the
+// provider's logger. They run from the first Retrieve (before the collector installs the service's core) until
+// the provider is shut down or the case ends.
+func (p *prov) startPollers(n int) {
+	if p.logger == nil || n <= 0 {
+		return
+	}
+	for i := 0; i < n; i++ {
+		p.pollWG.Add(1)
+		go func(id int) {
+			defer p.pollWG.Done()
+			lg := p.logger
+			tight := p.r.h.Class == "many-reloads" // full pressure where the reloads are dense, paced bursts elsewhere
+			for k := 0; !p.pollStop.Load() && !p.r.returned(); k++ {
+				switch k % 3 {
+				case 0:
+					lg.Info("harness provider poll", zap.Int("poller", id), zap.Int("n", k), zap.String("uri", "vv:x"))
+				case 1:
+					lg.Warn("harness provider poll found nothing new", zap.Int("poller", id), zap.Int("n", k))
+				default:
+					if ce := lg.Check(zapcore.InfoLevel, "harness provider poll (checked)"); ce != nil {
+						ce.Write(zap.Int("poller", id))
+					}
+				}
+				p.pollLines.Add(1)
+				if tight {
+					runtime.Gosched()
+				} else {
+					time.Sleep(20 * time.Microsecond) // pacing only (CPU budget); no verdict depends on it
+				}
+			}
+		}(i)
+	}
+}
+
+func (p *prov) stopPollers(wait bool) {
+	p.pollStop.Store(true)
+	if wait {
+		p.pollWG.Wait()
+	}
+}
+
+func (p *prov) logf(msg string, fields ...zap.Field) {
+	if p.logger != nil && p.r.h.Pollers > 0 {
+		p.logger.Info(msg, fields...)
+	}
+}
+
+// conv is a converter that only logs through the logger the collector gave it.
+type conv struct {
+	r      *run
+	logger *zap.Logger
+}
+
+func (c conv) Convert(context.Context, *confmap.Conf) error {
+	if c.logger != nil && c.r.h.Pollers > 0 {
+		c.logger.Info("harness converter ran", zap.Int("generation", c.r.prov.generation()))
+	}
+	return nil
 }
 
 func (p *prov) Scheme() string { return "vv" }
@@ -243,13 +330,21 @@ func (p *prov) Retrieve(_ context.Context, _ string, w confmap.WatcherFunc) (*co
 	p.mu.Unlock()
 	plan := p.r.h.plan(g)
 	p.r.log(event{Kind: "retrieve", Gen: g, Info: plan.Fail})
+	p.mu.Lock()
+	first := !p.pollOn
+	p.pollOn = true
+	p.mu.Unlock()
+	if first {
+		p.startPollers(p.r.h.Pollers)
+	}
+	p.logf("harness provider retrieves", zap.Int("generation", g))
 	if plan.Fail == "retrieve-error" {
 		p.mu.Lock()
 		p.open = false
 		p.mu.Unlock()
 		return nil, fmt.Errorf("injected retrieve error gen %d", g)
 	}
-	return confmap.NewRetrievedFromYAML([]byte(yamlFor(g, plan)), confmap.WithRetrievedClose(func(context.Context) error {
+	return confmap.NewRetrievedFromYAML([]byte(yamlFor(g, plan, p.r.h.logLevel())), confmap.WithRetrievedClose(func(context.Context) error {
 		p.mu.Lock()
 		p.closes++
 		if g == p.gen {
@@ -267,6 +362,7 @@ func (p *prov) Shutdown(context.Context) error {
 	p.open = false
 	p.mu.Unlock()
 	p.r.log(event{Kind: "provider-shutdown"})
+	p.stopPollers(false)
 	return nil
 }
 
@@ -296,6 +392,7 @@ func (p *prov) fire(err error, onLoopGoroutine bool) bool {
 	p.notified = true
 	p.outstanding = true
 	p.w(&confmap.ChangeEvent{Error: err}) // capacity-1 channel, known empty: does not block
+	p.logf("harness provider notified the collector", zap.Bool("error", err != nil))
 	return true
 }
 
@@ -320,7 +417,7 @@ func (p *prov) sawIdle() {
 	p.mu.Unlock()
 }
 
-func yamlFor(g int, pl GenPlan) string {
+func yamlFor(g int, pl GenPlan, level string) string {
 	failS, failD := "", ""
 	if strings.HasPrefix(pl.Fail, "start:") {
 		failS = strings.TrimPrefix(pl.Fail, "start:")
@@ -349,7 +446,7 @@ func yamlFor(g int, pl GenPlan) string {
 	}
 	fmt.Fprintf(&b, "extensions:\n  k: %s\n", c("ext"))
 	b.WriteString("service:\n  extensions: [k]\n")
-	b.WriteString("  telemetry: {metrics: {level: none}, logs: {level: error, sampling: {enabled: false}, output_paths: [/dev/null], error_output_paths: [/dev/null]}}\n")
+	b.WriteString("  telemetry: {metrics: {level: none}, logs: {level: " + level + ", sampling: {enabled: false}, output_paths: [/dev/null], error_output_paths: [/dev/null]}}\n")
 	fmt.Fprintf(&b, "  pipelines:\n    logs: {receivers: [%s], processors: [k], exporters: [%s]}\n", strings.Join(recvs, ", "), strings.Join(exps, ", "))
 	return b.String()
 }
